@@ -25,20 +25,14 @@ pub fn get_type_size(expression: pt::Expression) -> u16 {
 
 //get line number of start of character range
 pub fn get_line_number(char_number: usize, file_contents: &str) -> i32 {
-    let re = Regex::new(r"\n").unwrap();
-    let mut i = 1;
-    for capture in re.captures_iter(file_contents).into_iter() {
-        for c in capture.iter() {
-            if c.unwrap().start() > char_number {
-                //+1 since line numbers start at 1
-                return i;
-            } else {
-                i = i + 1;
-            }
-        }
-    }
+    //Line numbers start at 1: count the line feeds that precede the character range
+    let line_feeds = file_contents
+        .bytes()
+        .take(char_number)
+        .filter(|byte| *byte == b'\n')
+        .count();
 
-    return 0;
+    line_feeds as i32 + 1
 }
 
 pub fn storage_slots_used(variables: Vec<u16>) -> u32 {
